@@ -1,10 +1,12 @@
 #!/bin/sh
 # tools/run_all.sh [quick|thorough] : run every check, print exit code and wall time
 tier=${1:-quick}
+L=${LOGDIR:-/var/tmp}
+mkdir -p "$L"
 cd "$(dirname "$0")/.." || exit 2
 for c in C01 C02 C03 C04 C05 C06 C07 C08 C09 C10 C11 C12 C13 C14 C15 C16 C17 C18 C19 C20; do
   s=$(date +%s)
-  ./check $c --tier $tier > /var/tmp/run_all_$c.log 2>&1
+  ./check $c --tier $tier > $L/run_all_$c.log 2>&1
   rc=$?
-  echo "$c exit=$rc secs=$(( $(date +%s) - s )) $(tail -1 /var/tmp/run_all_$c.log | cut -c1-160)"
+  echo "$c exit=$rc secs=$(( $(date +%s) - s )) $(tail -1 $L/run_all_$c.log | cut -c1-160)"
 done
